@@ -14,12 +14,17 @@
 package main
 
 import (
+	"bufio"
 	"bytes"
 	"encoding/base64"
 	"encoding/hex"
 	"encoding/json"
 	"fmt"
+	"io"
 	"math/rand"
+	"net"
+	"net/http"
+	"net/http/httptest"
 	"net/url"
 	"os"
 	"path/filepath"
@@ -28,6 +33,7 @@ import (
 	"strconv"
 	"strings"
 	"sync"
+	"time"
 
 	"github.com/Dash-Industry-Forum/livesim2/cmd/livesim2/app"
 	"github.com/Dash-Industry-Forum/livesim2/pkg/drm"
@@ -66,7 +72,11 @@ type c10in struct {
 	Bytes []byte `json:"bytes,omitempty"`
 	// la
 	Kids []string `json:"kids,omitempty"`
-	Path string   `json:"path,omitempty"`
+	// Framing of the licence request: "" in-process; over a real HTTP connection: "content-length",
+	// "chunked" (no Content-Length, chunked transfer coding), "chunked-split" (the body in two chunks),
+	// "http10-content-length"
+	Framing string `json:"framing,omitempty"`
+	Path    string `json:"path,omitempty"`
 }
 
 // CPIX package as the harness reads it from the XML (independent of pkg/drm).
@@ -261,14 +271,16 @@ type env struct {
 	// representation-data directory; "repdata-write" = first start with a representation-data
 	// directory (scanned, metadata written); "repdata-restart" = started on that directory
 	// afterwards (representations restored from the stored metadata)
-	servers map[string]*lib.Livesim
-	notes   []string
-	genPkgs []string     // names of the generated CPIX packages (served by the "gen-drm" instance only)
-	pre     *lib.Livesim // scratch vodroot with the pre-encrypted asset
-	preErr  string
-	assets  map[string]*lib.TLAsset
-	cpix    map[string]*cpixPkg
-	segDur  map[string]int64
+	servers  map[string]*lib.Livesim
+	notes    []string
+	wire     *httptest.Server // the full router behind a real listener (licence request framing)
+	wireOnce sync.Once
+	genPkgs  []string     // names of the generated CPIX packages (served by the "gen-drm" instance only)
+	pre      *lib.Livesim // scratch vodroot with the pre-encrypted asset
+	preErr   string
+	assets   map[string]*lib.TLAsset
+	cpix     map[string]*cpixPkg
+	segDur   map[string]int64
 }
 
 func newEnv(scratch string, seed int64) (*env, error) {
@@ -982,9 +994,47 @@ type laObs struct {
 	Raw    string
 }
 
+// wirePost sends the licence request over a real HTTP/1.x connection with the given body framing.
+func (e *env) wirePost(path string, body []byte, framing string) lib.Resp {
+	e.wireOnce.Do(func() { e.wire = httptest.NewServer(e.ls.Srv.Router) })
+	conn, err := net.Dial("tcp", strings.TrimPrefix(e.wire.URL, "http://"))
+	if err != nil {
+		return lib.Resp{Status: -1, Body: []byte(err.Error())}
+	}
+	defer conn.Close()
+	_ = conn.SetDeadline(time.Now().Add(5 * time.Second))
+	var sb bytes.Buffer
+	switch framing {
+	case "content-length":
+		fmt.Fprintf(&sb, "POST %s HTTP/1.1\r\nHost: x\r\nContent-Type: application/json\r\nContent-Length: %d\r\nConnection: close\r\n\r\n%s", path, len(body), body)
+	case "http10-content-length":
+		fmt.Fprintf(&sb, "POST %s HTTP/1.0\r\nContent-Type: application/json\r\nContent-Length: %d\r\n\r\n%s", path, len(body), body)
+	case "chunked":
+		fmt.Fprintf(&sb, "POST %s HTTP/1.1\r\nHost: x\r\nContent-Type: application/json\r\nTransfer-Encoding: chunked\r\nConnection: close\r\n\r\n%x\r\n%s\r\n0\r\n\r\n", path, len(body), body)
+	default: // chunked-split
+		k := len(body) / 2
+		fmt.Fprintf(&sb, "POST %s HTTP/1.1\r\nHost: x\r\nContent-Type: application/json\r\nTransfer-Encoding: chunked\r\nConnection: close\r\n\r\n%x\r\n%s\r\n%x\r\n%s\r\n0\r\n\r\n", path, k, body[:k], len(body)-k, body[k:])
+	}
+	if _, err := conn.Write(sb.Bytes()); err != nil {
+		return lib.Resp{Status: -1, Body: []byte(err.Error())}
+	}
+	resp, err := http.ReadResponse(bufio.NewReader(conn), nil)
+	if err != nil {
+		return lib.Resp{Status: -1, Body: []byte(err.Error())}
+	}
+	defer resp.Body.Close()
+	b, _ := io.ReadAll(resp.Body)
+	return lib.Resp{Status: resp.StatusCode, Header: resp.Header, Body: b}
+}
+
 func (e *env) runLa(in c10in) (o laObs) {
 	body, _ := json.Marshal(map[string]any{"kids": in.Kids, "type": "temporary"})
-	r := e.ls.Do("POST", in.Path, bytes.NewReader(body), map[string]string{"Content-Type": "application/json"})
+	var r lib.Resp
+	if in.Framing == "" {
+		r = e.ls.Do("POST", in.Path, bytes.NewReader(body), map[string]string{"Content-Type": "application/json"})
+	} else {
+		r = e.wirePost(in.Path, body, in.Framing)
+	}
 	// the full router has the Recoverer: ask the sub-router as well to see a panic with its site
 	o.Status = r.Status
 	switch r.Status {
@@ -1628,6 +1678,9 @@ func (e *env) generate(rng *rand.Rand, c *lib.Ctx) []c10in {
 	}
 	for i := 0; i < nLa; i++ {
 		in := c10in{Kind: "la", Path: paths[rng.Intn(len(paths))]}
+		if i%3 == 0 { // a third of them over a real connection, all framings of the request body
+			in.Framing = []string{"content-length", "chunked", "chunked-split", "http10-content-length"}[(i/3)%4]
+		}
 		kind := ""
 		n := rng.Intn(4)
 		for j := 0; j < n; j++ {
@@ -1648,6 +1701,9 @@ func (e *env) generate(rng *rand.Rand, c *lib.Ctx) []c10in {
 				in.Kids = append(in.Kids, b64url(issued()))
 				kind += "I"
 			}
+		}
+		if in.Framing != "" {
+			c.Count("la-framing:" + in.Framing)
 		}
 		add("la:"+kind, in)
 	}
